@@ -353,7 +353,7 @@ func c11Scripts(n int, cuts []int) [][]impl.Answer {
 			e = append(e, impl.Answer{N: 0, Err: "boom"})
 			out = append(out, e)
 			// ... an error that wraps io.EOF / is io.ErrUnexpectedEOF (still a read error, not the end of input)
-			for _, kind := range []string{"wrapeof: connection reset", "unexpected-eof"} {
+			for _, kind := range []string{"wrapeof: connection reset", "unexpected-eof", "temporary", "deadline"} {
 				out = append(out, append(mk()[:i], impl.Answer{N: 0, Err: kind}))
 			}
 			if i < len(sizes) {
@@ -464,11 +464,11 @@ func init() {
 		ID:    "C11",
 		Level: "model_checking",
 		Rule: "stateless model checking of the real ParseFile/InterpretFile/UnmarshalFile pipeline (package bcl rewritten at check time so that its channel operations, go statements and select go through the controlled scheduler mc/vsched): " +
-			"inputs of 5 classes x 2 plus a byte order mark (alone in a read, split, with data) and 40 syntax errors followed by more input (valid; syntax error in the first / last chunk; lexical failure in the first chunk with 6 more chunks pending / in the last chunk), each under every reader script of a bounded family (1-3 chunks cut at token and mid-token offsets; <=2 non-default answers among zero-byte read, data+EOF, error, data+error; errors of three kinds: plain, wrapping io.EOF, io.ErrUnexpectedEOF; UnmarshalFile also with targets that cannot be bound: a struct value, nil, a slice value) and tokens-buffer sizes {source value, 1, 2}; " +
+			"inputs of 5 classes x 2 plus a byte order mark (alone in a read, split, with data) and 40 syntax errors followed by more input (valid; syntax error in the first / last chunk; lexical failure in the first chunk with 6 more chunks pending / in the last chunk), each under every reader script of a bounded family (1-3 chunks cut at token and mid-token offsets; <=2 non-default answers among zero-byte read, data+EOF, error, data+error; errors of five kinds: plain, wrapping io.EOF, io.ErrUnexpectedEOF, a sticky EAGAIN that calls itself temporary, os.ErrDeadlineExceeded; forty zero-byte reads in a row; UnmarshalFile also with targets that cannot be bound: a struct value, nil, a slice value) and tokens-buffer sizes {source value, 1, 2}; " +
 			"for each (input, script) ALL schedules of caller, reader, parser and lexer goroutines with <=B preemptions (quick 1, thorough 2; 3 for single-chunk scripts) are executed, and in addition ALL interleavings without any bound, pruned by a causal-history state key (quick: for scripts of <=2 answers through ParseFile; thorough: for every case, capped at 3x10^6 executions each). Oracle on every execution: quiescence without deadlock, the call returned, no goroutine left and none writing to the writers of the caller after the return, Close count = 1, the delivered read error is the returned error, <=3 reads after the read delivering a lexical failure, outcome identical to the in-memory API on the delivered bytes. " +
 			"states/transitions = executions (each a distinct schedule). Sub-check c11.osfile (free-running): the three entry points on real *os.File inputs (regular files incl. an empty one, a pipe, /dev/null): the call returns, gives the in-memory outcome and has closed the file.",
 		Subs:           []*fw.Sub{subC11, subC11OSFile},
-		BudgetQuick:    100,
+		BudgetQuick:    170,
 		BudgetThorough: 1700,
 		Assumptions: []string{"scheduling points are channel operations, select, close, go, locks and atomics; code between them runs atomically (sound if race-free: C12)",
 			"readers that block forever or return (0,nil) forever are outside the bound"},
@@ -499,6 +499,8 @@ func init() {
 				// a byte order mark: alone in its own read, split over reads, together with data
 				{"\ufeffprint 1\nprint 2", []int{1, 3, 9}},
 				{"\ufeff", []int{1, 2}},
+				// a faulty token right after a ';' (error recovery must still move on)
+				{"eval 1; )\nprint 2; = 3\nvar a = 1; 5", []int{8, 9, 20}},
 				// more syntax errors than any "too many errors" limit, with input left after them
 				{strings.Repeat("print )\n", 40) + "print 1\nprint (", []int{8, 168, 330}},
 			}
@@ -511,6 +513,15 @@ func init() {
 				if len(in.src) > 200 {
 					// the long input: chunked scripts without the fault variants (the token stream alone gives hundreds of scheduling points)
 					scripts = [][]impl.Answer{impl.Chunks(), impl.Chunks(8), impl.Chunks(168, 162), {{N: 168}, {N: 0, Err: "boom"}}, {{N: len(in.src), Err: "EOF"}}}
+				}
+				if in.src == "var a = 1\nprint a + 2\n" {
+					// forty zero-byte reads in a row before, between and after the data (each is ignored at once: no pause that grows)
+					var z []impl.Answer
+					for i := 0; i < 40; i++ {
+						z = append(z, impl.Answer{N: 0})
+					}
+					long := append(append(append(append([]impl.Answer{}, z...), impl.Answer{N: 10}), z...), impl.Answer{N: 12})
+					scripts = append(scripts, append(long, z...))
 				}
 				if strings.HasPrefix(in.src, "print @\n") {
 					// the early failure followed by 6 further chunks that must not all be read
